@@ -80,7 +80,8 @@ impl<'a> G<'a> {
         }
         self.case(kind, "map", a, &[s("q")]);
         // property name absent from every object, and nil as the property name
-        for p in [s("zz"), Value::Nil] {
+        // names of the synthetic members every object answers on a variable path
+        for p in [s("zz"), Value::Nil, s("size"), s("first"), s("last")] {
             for name in ["sort", "sort_natural", "map", "compact", "where"] {
                 self.case(kind, name, a, &[p.clone()]);
             }
